@@ -19,7 +19,9 @@ def _get_story_offsets(all_stories: Optional[List[Element]]) -> Optional[Dict[st
         t = 0
         for story in all_stories:
             story_offsets[story.find('storyID').text] = t
-            t += _get_story_duration(story)
+            duration = _get_story_duration(story)
+            # the offset of whatever follows a story of unknown duration is unknown
+            t = t + duration if t is not None and duration is not None else None
         return story_offsets
 
 
